@@ -389,3 +389,117 @@ def r5(ctx):
 def r6(ctx):
     from . import c08
     ctx.sub(c08.r2)
+
+
+# ---------------------------------------------------------------------------------------------------------------------------
+# Life-cycle obligations over the *cyclic* control-flow graph of the main loop.  C09.R2 states the order of the phases inside one
+# round (that is what C09 says); the properties that merely depend on the loop need less, and need it along every path - through
+# the back edge as well.  Each obligation below is a necessary condition of the property named with it.
+def lifecycle(ctx, which):
+    """which: subset of {"fresh-stats", "refill-before-fit", "fit-pairs", "nothing-after-relabel"}"""
+    ana = ctx.ana
+    ml = MainLoop(ana)
+    fi, cfg, rd = ml.fi, ml.cfg, ml.rd
+    nodes = {p: [cfg.node_of(c.node) for c in ml.calls[p]] for p in PHASES}
+    missing = [p for p, n in nodes.items() if not n and p != "repopulate"]
+    if missing:
+        raise AnalysisError(f"phase(s) {missing} are not called in the main loop")
+    init = [cfg.node_of(c.node) for c in calls_to(ana, fi, "fast_ticc.cluster_label_assignment.build_initial_clusters")]
+
+    def no_path(srcs, dsts, avoid, drop_edges=()):
+        av = {a.id for a in avoid}
+        saved = {}
+        for a, b in drop_edges:
+            saved.setdefault(a, cfg.succ[a])
+            cfg.succ[a] = [(s_, k) for (s_, k) in cfg.succ[a] if s_ != b]
+        try:
+            for src in srcs:
+                for dst in dsts:
+                    # a source that is itself to be avoided still *starts* the path (it is the event we start from)
+                    if cfg.paths_avoiding(src, av - {src.id}, {dst.id}, kinds=("n",)) is not None:
+                        return False
+            return True
+        finally:
+            for a, v in saved.items():
+                cfg.succ[a] = v
+
+    def arg_of(call_node, phase):
+        cs = [c for c in ml.calls[phase] if cfg.node_of(c.node) is call_node][0]
+        return bind_args(cs.callee.func, cs.node).get("model")
+
+    st, op, rl, rp = nodes["statistics"], nodes["optimise"], nodes["relabel"], nodes["repopulate"]
+    if "fresh-stats" in which:
+        # C12: whenever the optimiser runs, the statistics were recomputed after the last change of the labelling
+        for name, srcs in (("initial labels", init), ("repopulate", rp), ("relabel", rl)):
+            if not srcs:
+                continue
+            ctx.check(no_path(srcs, op, st), fi, f"after `{name}` changed the labelling, the statistics phase runs before the optimiser does (on every path, "
+                      "through the back edge as well)", line=srcs[0].lineno, role=f"fresh-stats:{name}", expected="every path to optimise passes statistics",
+                      found="a path reaches the optimiser with statistics of an older labelling")
+        for o_ in op:
+            arg = arg_of(o_, "optimise")
+            ok = isinstance(arg, ast.Name) and bool(rd.origins(o_, arg.id)) and {d.id for d in rd.origins(o_, arg.id)} <= {x.id for x in st}
+            ctx.check(ok, fi, "the optimiser receives exactly the state the statistics phase produced", line=o_.lineno, role="fresh-stats:thread",
+                      expected="state = statistics(state); optimise(state)", found=unparse(arg) if arg is not None else "missing")
+    if "refill-before-fit" in which:
+        # C03: from the second round on, no labelling reaches the statistics phase without having passed repopulation
+        drop = []
+        var = Sym(ml.loop.target.id) if isinstance(ml.loop.target, ast.Name) else None
+        accepted = {tm.compare(">", var, 0).key, tm.compare(">=", var, 1).key, tm.compare("!=", var, 0).key} if var is not None else set()
+        b = ana.builder(fi, no_inline=ana.known)
+        for r_ in rp:
+            for t, pol, owner in cfg.guards(r_):
+                if owner is ml.loop:
+                    continue
+                try:
+                    gt = b.term(t, cfg.stmt_node[id(owner)])
+                except Exception:
+                    continue
+                gt = gt if pol else tm.negate(gt)
+                if gt.key not in accepted:
+                    continue
+                # the branch that skips repopulation because `round > 0` is false cannot be taken after the back edge
+                for n in cfg.nodes:
+                    if n.kind == "branch" and n.ast is owner and n.polarity != pol:
+                        for pr, _k in cfg.pred.get(n.id, []):
+                            drop.append((pr, n.id))
+        ctx.check(bool(rp) and no_path(rl, st, rp, drop_edges=drop), fi,
+                  "a labelling produced by `relabel` reaches the next statistics phase only through repopulation", line=(rp or st)[0].lineno,
+                  role="refill-before-fit", expected="relabel ... repopulate ... statistics on every cyclic path",
+                  found="a path from relabel to statistics that skips repopulation")
+        for s_ in st:
+            arg = arg_of(s_, "statistics")
+            ok = False
+            found = unparse(arg) if arg is not None else "missing"
+            if isinstance(arg, ast.Name) and rp:
+                defs = {d.id for d in rd.origins(s_, arg.id)}
+                pre = {d.id for d in rd.origins(ml.cfg.for_init[id(ml.loop)], arg.id)}
+                ok = bool(defs) and defs <= ({x.id for x in rp + rl + st} | pre)
+                found = f"`{arg.id}` defined at line(s) {sorted(cfg.nodes[i].lineno for i in defs)}"
+            ctx.check(ok, fi, "the statistics phase fits the (repopulated) state of the previous relabel or the initial state", line=s_.lineno,
+                      role="refill-before-fit:thread", expected="relabel / repopulate / initial state", found=found)
+    if "fit-pairs" in which:
+        # C16: at the BIC, every cluster's MRF is the one fitted to the covariance stored next to it
+        bic = calls_to(ana, fi, "fast_ticc.cluster_metrics.bayesian_information_criterion")
+        if not bic:
+            raise AnalysisError("the BIC is not computed in the main loop function")
+        bn = [cfg.node_of(c.node) for c in bic]
+        ctx.check(no_path(st, bn, op), fi, "no statistics refresh reaches the BIC without a fit in between (Theta_k was fitted to the S_k it is scored with)",
+                  line=bn[0].lineno, role="fit-pairs", expected="statistics ... optimise ... BIC on every path", found="a path statistics -> BIC that skips the optimiser")
+        for o_ in op:
+            arg = arg_of(o_, "optimise")
+            ok = isinstance(arg, ast.Name) and bool(rd.origins(o_, arg.id)) and {d.id for d in rd.origins(o_, arg.id)} <= {x.id for x in st}
+            ctx.check(ok, fi, "the optimiser fits the state the statistics phase produced", line=o_.lineno, role="fit-pairs:thread",
+                      found=unparse(arg) if arg is not None else "missing")
+    if "nothing-after-relabel" in which:
+        # C06: labels, cost and likelihoods of the result describe one state - nothing refits, refills or rescores after the last relabel
+        ctor = calls_to(ana, fi, "fast_ticc.containers.results.SingleDataSeriesResult")
+        if len(ctor) != 1:
+            raise AnalysisError("SingleDataSeriesResult constructor call not found exactly once")
+        cn = [cfg.node_of(ctor[0].node)]
+        for name, srcs in (("repopulate", rp), ("statistics", st), ("optimise", op)):
+            if not srcs:
+                continue
+            ctx.check(no_path(srcs, cn, rl), fi, f"`{name}` never runs after the last relabel (the result's cost was computed for the state it reports)",
+                      line=srcs[0].lineno, role=f"nothing-after-relabel:{name}", expected=f"every path from {name} to the result passes relabel",
+                      found=f"a path from {name} to the result that skips relabel")
